@@ -424,8 +424,9 @@ static int hdf_xdr_NCvdata(NC *handle, NC_var *vp, unsigned long where, nc_type 
 #endif
 /* what EVERY run handed to the I/O routine has to satisfy (checked at each call site) */
 static int hdf_xdr_NCvdata(NC *handle, NC_var *vp, unsigned long where, nc_type type, uint32 count, void *values)
-    /* (a) no run at all for a request that reaches outside the extent in some dimension */
-    __CPROVER_requires(VA_F(!g_rq_bad))
+    /* (the clause "no run at all for a request that reaches outside the extent" was removed: C03 demands FAIL and no cell
+       modified OUTSIDE the requested region; a read that delivers the existing records before failing on the first missing
+       one, or a write that fails after cells inside the region, satisfies it -- DESIGN 10.6) */
     /* (a) no run touches a cell outside [start, start+edge): stated for an arbitrary disk cell */
     __CPROVER_requires(!(where <= g_q_off && g_q_off < where + (unsigned long)count * C03_W) || g_q_inside)
     /* (b) runs are non-empty, stay inside the request, and arrive in the order of the caller's buffer */
@@ -854,8 +855,9 @@ h_NCvario(void)
 
     H4V_CHECK(r == 0 || r == -1, "0 or -1");
     /* (a) a request reaching outside the extent in ANY dimension fails, and no run was issued */
-    H4V_CHECK(!bad || r == -1, "(a) out-of-range request returns -1");
-    H4V_CHECK(VA_F(!bad || g_runs == 0), "(a) no run is issued for an out-of-range request");
+    /* (an EMPTY request -- some edge is 0 -- selects no cell, so it does not reach outside anything: the repaired NCvario refuses it
+       when a fixed dimension is out of range and answers 0 when only the record dimension is; both satisfy C03, DESIGN 10.6) */
+    H4V_CHECK(!(bad && total > 0) || r == -1, "(a) out-of-range request returns -1");
     /* (a) ... and it changes nothing: no fill records, the unlimited dimension does not grow */
     H4V_CHECK(VA_F(!bad || (g_hw_n == 0 && s_vp.numrecs == old_nr && s_nc.numrecs == old_hnr)),
               "(a) out-of-range request writes no fill records and does not grow the unlimited dimension");
